@@ -33,6 +33,19 @@ CHECKS = {
     note="Trusted: TLC; harness/tsmrig.py; position-coded payload maps octets to segment tokens. Timeouts well-ordered (4*Tseg < Tapdu): "
          "the library's default device timeouts (finding F16) are not exercised.",
     technique="TLA+ spec (TSM.tla) + TLC exhaustive; state-graph replay; TLC trace validation of recorded real executions"),
+ "C09": dict(
+    category="model_checking",
+    text="BVLL.tla transcribes Annex J (header 0x81 / function / length = total octets, the twelve functions) as Enc/Dec operators; TLC "
+         "checks Dec(Enc(r)) = r and the length-field clause over the twelve functions x address/port/mask/TTL boundaries x tables of 0..40 "
+         "entries x payloads 0..1497, and Dec on wrong-type / wrong-length / truncated / extended frames, all 256 function codes and all "
+         "strings <= 4 over a class alphabet. Every TLC case is executed on the real classes on four paths (class encode + BVLPDU.encode, "
+         "AnnexJCodec.indication, BVLPDU.decode + registry decode, AnnexJCodec.confirmation) and compared; random records / octet strings and "
+         "the frames BIPSimple/BIPForeign/BIPBBMD emit are recorded and validated by TLC (Trace_BVLL.tla).",
+    design_ref="DESIGN.md 5 (C07-C09)",
+    note="Trusted: TLC, my transcription of Annex J in BVLL.tla, the renderer from abstract cases to constructor calls. Payload contents "
+         "are position coded. Function-evaluation use of TLC (pure codec): exhaustive over the stated boundary grid, not over all inputs. "
+         "Trailing octets after fixed-length functions are tolerated by the code (named deviation, outside the property).",
+    technique="TLA+ codec spec (BVLL.tla) evaluated by TLC over the case grid; per-case replay into the real codec; TLC validation of recorded encode/decode calls"),
  "C14": dict(
     category="model_checking",
     text="TLC checks every C14 clause (fire order, FIFO among equals, never early, once per install, no fire after suspend, "
